@@ -236,6 +236,9 @@ func allowedCount(key string) int {
 	return 1
 }
 
+// Truncating conversions of arithmetic results inside the scoped functions that cannot exceed the key type.
+var truncAllowed = map[string]string{}
+
 func inNarrowScope(f *ssa.Function) bool {
 	g := f
 	for g.Parent() != nil {
@@ -274,6 +277,7 @@ func ruleU1(p *Prog) *RuleResult {
 		res.ok(k, "-", fmt.Sprintf("%d widen-then-add site(s)", c))
 	}
 	// clause 2: no 16-bit add/sub at all inside the scoped functions
+	truncSeen := map[string]int{}
 	scopeSeen := map[string]int{}
 	arithSeen := map[string]int{}
 	resolved := 0
@@ -310,6 +314,42 @@ func ruleU1(p *Prog) *RuleResult {
 	}
 	if resolved < len(narrowScope)-6 {
 		res.undecided("scope", "-", fmt.Sprintf("only %d of the %d scoped functions were found", resolved, len(narrowScope)))
+	}
+	// clause 3: inside the scoped functions (and the 64-bit ParOr, whose keys are uint32) no computed value is
+	// truncated into the key type: uint16(a + i*b) wraps once the sum passes the last key. A conversion is fine
+	// when its operand is bounded by a value of the narrow type (min(x, int(hKey))) or is not arithmetic.
+	for _, f := range p.sourceFns() {
+		g := f
+		for g.Parent() != nil {
+			g = g.Parent()
+		}
+		if !inNarrowScope(f) && fname(g) != "roaring64.ParOr" {
+			continue
+		}
+		keyWidth := 16
+		if fname(g) == "roaring64.ParOr" {
+			keyWidth = 32
+		}
+		for _, b := range f.Blocks {
+			for _, ins := range b.Instrs {
+				cv, ok := ins.(*ssa.Convert)
+				if !ok || intWidth(basicKind(cv.Type())) != keyWidth || intWidth(basicKind(cv.X.Type())) <= keyWidth {
+					continue
+				}
+				bo, ok := cv.X.(*ssa.BinOp)
+				if !ok || (bo.Op != token.ADD && bo.Op != token.SUB && bo.Op != token.MUL) {
+					continue // extractions (x >> 16, x & 0xffff), minima, loads: not arithmetic that can pass the last key
+				}
+				c := fmt.Sprintf("trunc:%s|%s", fname(f), p.exprShape(bo.Pos()))
+				truncSeen[c]++
+				ck := fmt.Sprintf("%s#%d", c, truncSeen[c])
+				if why, ok := truncAllowed[c]; ok {
+					res.ok(ck, p.ipos(cv), "allowed: "+why)
+				} else {
+					res.bad(ck, p.ipos(cv), fmt.Sprintf("a computed value is truncated to %d bits to serve as a key: beyond the last key it wraps to a small one (a chunk that starts past the end of the key space then covers the whole range again)", keyWidth))
+				}
+			}
+		}
 	}
 	for _, s := range p.narrowArith() {
 		c := fmt.Sprintf("%s|%s", fname(s.f), p.exprShape(s.op.Pos()))
